@@ -50,7 +50,7 @@ PROPS = {
         "assumptions": ["net/http recovers per request on its own; the library-side guarantee is doCall's recover", "the server runs in a child process; crash = the child exits"],
     },
     "C01": {
-        "lean_modules": ["JrpcProofs.Props.C01", "JrpcProofs.Facts.Call", "JrpcProofs.Facts.OneShot", "JrpcProofs.Facts.Params", "JrpcProofs.Facts.Naming"],
+        "lean_modules": ["JrpcProofs.Props.C01", "JrpcProofs.Facts.Options", "JrpcProofs.Facts.Call", "JrpcProofs.Facts.OneShot", "JrpcProofs.Facts.Params", "JrpcProofs.Facts.Naming"],
         "assumptions": [
             "encoding/json is a codec parameter (marshal/unmarshal per declared type); splitting a JSON array into raw elements is faithful",
             "the harness's oracle for 'JSON round trip' is json.Unmarshal(json.Marshal(v)) into the declared type, compared with reflect.DeepEqual (floats by value and sign, raw JSON as values)",
@@ -84,14 +84,14 @@ PROPS = {
         "timeout": 1500,
     },
     "C08": {
-        "lean_modules": ["JrpcProofs.Props.C08", "JrpcProofs.Lemmas.Stream", "JrpcProofs.Facts.Stream", "JrpcProofs.Facts.Frames", "JrpcProofs.Props.Sweep", "JrpcProofs.Facts.Sweep", "JrpcProofs.Props.Forwarder"],
+        "lean_modules": ["JrpcProofs.Props.C08", "JrpcProofs.Lemmas.Stream", "JrpcProofs.Facts.Stream", "JrpcProofs.Facts.Frames", "JrpcProofs.Props.Sweep", "JrpcProofs.Facts.Sweep", "JrpcProofs.Props.Forwarder", "JrpcProofs.Facts.Corr"],
         "assumptions": [
             "as C07; 'eventually closed' is proved as enabledness of the close after each cause (PARTIAL: needs fairness and a consumer that keeps reading or cancels) and observed with a time-out in the scenarios",
         ],
         "timeout": 1500,
     },
     "C02": {
-        "lean_modules": ["JrpcProofs.Props.C02", "JrpcProofs.Props.Epoch", "JrpcProofs.Lemmas.Corr", "JrpcProofs.Facts.Corr", "JrpcProofs.Facts.Frames", "JrpcProofs.Facts.OneShot", "JrpcProofs.Facts.Writers", "JrpcProofs.Facts.Call", "JrpcProofs.Facts.Interp"],
+        "lean_modules": ["JrpcProofs.Props.C02", "JrpcProofs.Props.Epoch", "JrpcProofs.Lemmas.Corr", "JrpcProofs.Facts.Corr", "JrpcProofs.Facts.Frames", "JrpcProofs.Facts.OneShot", "JrpcProofs.Facts.Writers", "JrpcProofs.Facts.Call", "JrpcProofs.Facts.Interp", "JrpcProofs.Facts.ErrTypes"],
         "assumptions": [
             "hooks only delay goroutines; two log entries written by different goroutines around one channel rendezvous may come in either order and are reconciled by the replayer (tau steps are counted in the evidence)",
             "ids of calls that are inside doRequest at the same time differ (id counter; int64 to float64 keys are injective below 2^53 calls)",
@@ -130,7 +130,7 @@ PROPS = {
         "timeout": 2400,
     },
     "C06": {
-        "lean_modules": ["JrpcProofs.Props.C06", "JrpcProofs.Props.Epoch", "JrpcProofs.Facts.Call", "JrpcProofs.Facts.Cancel", "JrpcProofs.Facts.Corr", "JrpcProofs.Facts.Frames", "JrpcProofs.Facts.Stream"],
+        "lean_modules": ["JrpcProofs.Props.C06", "JrpcProofs.Props.Epoch", "JrpcProofs.Facts.Call", "JrpcProofs.Facts.Cancel", "JrpcProofs.Facts.Corr", "JrpcProofs.Facts.Frames", "JrpcProofs.Facts.Stream", "JrpcProofs.Facts.OneShot"],
         "assumptions": [
             "the peer is honest: it writes xrpc.cancel [id] only for a caller (or subscription) whose context was cancelled; the client side of that is tied by the regenerated skeletons of doRequest and handleCtxAsync",
             "over HTTP the guarantee is net/http's request-context cancellation; the library-side facts (hreq.WithContext(ctx), ctx := r.Context()) are observed by the HTTP scenario",
@@ -148,7 +148,7 @@ PROPS = {
         "timeout": 1500,
     },
     "C17": {
-        "lean_modules": ["JrpcProofs.Props.C17", "JrpcProofs.Facts.Keepalive", "JrpcProofs.Facts.Corr", "JrpcProofs.Facts.Options"],
+        "lean_modules": ["JrpcProofs.Props.C17", "JrpcProofs.Facts.Keepalive", "JrpcProofs.Facts.Corr", "JrpcProofs.Facts.Options", "JrpcProofs.Facts.Stream"],
         "assumptions": [
             "G (largest gap between peer activities seen by this endpoint) and E (local latency between an activity, or a passed deadline, and the library acting on it; includes the time the main loop spends reading one frame) are environment parameters of the model, explicit guards of `tick`; the scenarios run with small ones",
             "a peer that answers pings gives G <= P + round trip: that the library's own ping handler does answer is tied by the healthy-link scenarios against every server ping setting (F10), not by a theorem",
@@ -158,7 +158,7 @@ PROPS = {
         "timeout": 1500,
     },
     "C15": {
-        "lean_modules": ["JrpcProofs.Props.C15", "JrpcProofs.Props.C06", "JrpcProofs.Facts.Cancel", "JrpcProofs.Facts.Corr", "JrpcProofs.Facts.Params", "JrpcProofs.Facts.Reverse"],
+        "lean_modules": ["JrpcProofs.Props.C15", "JrpcProofs.Props.C06", "JrpcProofs.Facts.Cancel", "JrpcProofs.Facts.Corr", "JrpcProofs.Facts.Params", "JrpcProofs.Facts.Reverse", "JrpcProofs.Facts.Stream"],
         "assumptions": [
             "the goroutine model (main loop, reader, executor, forwarder, pinger, response writers) is tied by regenerated skeletons and by the goroutine profile (pprof labels) after each scenario, not by trace replay",
             "handleWS closes the socket after handleWsConn returns; a blocked NextReader then fails; the handlers return once cancelled (reaction time is a scenario parameter)",
